@@ -1,6 +1,7 @@
 package main
 
 import (
+	"sync/atomic"
 	"fmt"
 	"net/http"
 	"net/http/httptest"
@@ -299,7 +300,36 @@ func runReg(raw Sx) (Sx, Sx) {
 		tabulateRouting(o, t, sxStr(sxNth(pr, 2)))
 	}
 	_ = fmt.Sprint
-	return L(o.Sx(), router, Ls(ops), Ls(probes)), L(failed, ha, fa, freshFailed)
+	// a container serving on http.DefaultServeMux refuses Remove; the refusal must change nothing: the service is still
+	// registered and still answers (observation 5: 1 = so it is)
+	refusedKeeps := 1
+	func() {
+		defer func() {
+			if r := recover(); r != nil {
+				refusedKeeps = 0
+			}
+		}()
+		n := atomic.AddInt64(&regSeq, 1)
+		dc := restful.NewContainer()
+		if router == 1 {
+			dc.Router(restful.RouterJSR311{})
+		}
+		dc.ServeMux = http.DefaultServeMux
+		wd := new(restful.WebService)
+		wd.Path("/regdm" + itoa(int(n)))
+		wd.Route(wd.GET("/x").To(func(rq *restful.Request, rp *restful.Response) { rp.Write([]byte("DM")) }))
+		dc.Add(wd)
+		if err := dc.Remove(wd); err == nil {
+			refusedKeeps = 0 // it must be refused
+		}
+		rec := httptest.NewRecorder()
+		hr, _ := http.NewRequest("GET", "http://h/regdm"+itoa(int(n))+"/x", nil)
+		dc.Dispatch(rec, hr)
+		if rec.Code != 200 || rec.Body.String() != "DM" || len(dc.RegisteredWebServices()) != 1 {
+			refusedKeeps = 0
+		}
+	}()
+	return L(o.Sx(), router, Ls(ops), Ls(probes)), L(failed, ha, fa, freshFailed, refusedKeeps)
 }
 
 func routeFromSx(r Sx) RouteSpec {
@@ -310,5 +340,7 @@ func routeFromSx(r Sx) RouteSpec {
 func concatPathGo(path1, path2 string) string {
 	return strings.TrimRight(path1, "/") + "/" + strings.TrimLeft(path2, "/")
 }
+
+var regSeq int64
 
 func init() { domains["reg"] = domain{gen: genReg, run: runReg} }
